@@ -454,7 +454,23 @@ func nativeRaceMix(r *nrec, rng *rand.Rand, round int) {
 		_ = m.Submitted() + m.Completed() + m.Successful() + m.Failed()
 		_ = W.Status()
 		_ = W.Context()
+		_ = W.Errs()
+		_ = W.IsRunning() || W.IsPaused() || W.IsStopped()
 		time.Sleep(10 * time.Microsecond)
+	})
+	spawn(base+7, func(rg *rand.Rand) { // a second controller: control calls overlap each other
+		switch rg.Intn(10) {
+		case 0, 1:
+			W.Restart()
+		case 2:
+			W.Stop()
+			W.Restart()
+		case 3:
+			W.Resume()
+		case 4:
+			W.TunePool(1 + rg.Intn(5))
+		}
+		time.Sleep(time.Duration(80+rg.Intn(300)) * time.Microsecond)
 	})
 	spawn(base+6, func(rg *rand.Rand) { // control
 		switch rg.Intn(12) {
